@@ -41,7 +41,7 @@ ASSUMPTIONS = ['flags.enable_conn_pool is False (default)',
                'and tasks complete in the iteration that created them (true of all handlers shipped with proxy.py)',
                'constructing the work object (work_klass(...)) does not raise; BaseException (KeyboardInterrupt, CancelledError) is out of scope']
 SHARD = 18
-CASE_TIMEOUT = 30      # a case whose implementation run does not return (a loop inside the worker) is a failing input
+CASE_TIMEOUT = 12      # a case whose implementation run does not return (a loop inside the worker) is a failing input
 
 
 # ----------------------------------------------------------------------------- generation
@@ -62,7 +62,7 @@ def generate(rng, tier):
         cases.append(c)
     for _ in range(36 if quick else 1000):
         cases.append(gen_http(rng))
-    cases += gen_framing(rng, 48 if quick else None)
+    cases += gen_framing(rng, None)           # the whole (role x payload) grid: ~200 cases, well under a second
     return cases
 
 
